@@ -234,7 +234,7 @@ UNITS['hqueue'] = dict(
     skip_functions=['getEvent'],
     env_calls={'getEvent': 'Pol_getEvent'},
     tuple_ctor=['TupV', 'TupW'],
-    exc_edges=True, field_hooks={'Slot.dtor': 'SLOT_SET_dtor'},
+    exc_edges=True, exit_hooks=['ItemV_ctor_move', 'ItemW_ctor_move'],
     type_resubst=[(r'QueuedItem<typename FindPrototypeByArgs<.*, VArg &>::ArgsTuple>', HQB + '::QueuedItem<std::tuple<VArg>>'),
                   (r'QueuedItem<typename FindPrototypeByArgs<.*, WArg &>::ArgsTuple>', HQB + '::QueuedItem<std::tuple<WArg>>')],
     fn_rename=[(r'^HQ_doProcessIf__eventpp_internal__FindPrototypeByCallable_eventpp_HeterTuple_void_VArg_void_WArg_(Pred[VW])_Pred[VW]$', r'HQ_doProcessIf__P0_\1'),
